@@ -330,9 +330,9 @@ pub fn property() -> Property {
             "PkgDB::open on an unreadable directory is not explored (the sandbox runs as root)",
         ],
         streams: vec![
-            random_stream("trees", "generated package database directories", case_strategy, |t| t.pick(3_000, 40_000), check),
+            random_stream("trees", "generated package database directories", case_strategy, |t| t.pick(3_000, 60_000), check),
             enumerated_stream("filenames", "the 14 '+' file names and their near misses", names, check_name),
-            random_stream("metadata", "Metadata::read_metadata sequences and is_valid", meta_strategy, |t| t.pick(30_000, 300_000), check_meta),
+            random_stream("metadata", "Metadata::read_metadata sequences and is_valid", meta_strategy, |t| t.pick(30_000, 3_000_000), check_meta),
         ],
         selfcheck: || Ok(()),
         hang_is_violation: false,
